@@ -255,7 +255,8 @@ def emit_archive(entries, dialect, r, trailer_blocks=2):
 
 
 # ------------------------------------------------------------------ generator
-def gen_archive_model(r, nfiles=6, ndirs=2, hostile=False, xattrs=False, hardlinks=True, sparse=True, root_entry=None, bs=4096, big=False):
+def gen_archive_model(r, nfiles=6, ndirs=2, hostile=False, xattrs=False, hardlinks=True, sparse=True, root_entry=None, bs=4096, big=False,
+                      link_specials=False):
     import treegen
     ents = treegen.gen_tree(r, bs=bs, nfiles=nfiles, ndirs=ndirs, hostile=hostile, specials=True, xattrs=xattrs, hardlinks=hardlinks, big=big)
     out = []
@@ -303,6 +304,11 @@ def gen_archive_model(r, nfiles=6, ndirs=2, hostile=False, xattrs=False, hardlin
                         te.realsize += shift
                         break
         out.append(te)
+    if link_specials:
+        # second names for symlinks, fifos and device nodes (what GNU tar writes when such an inode has two names on disk)
+        sp = [x for x in out if x.type in ("slink", "fifo", "chr", "blk") and len(x.name) < 90]
+        for x in r.sample(sp, min(len(sp), r.choice([1, 2, 3]))):
+            out.append(TEntry(x.name + b".2nd", "hlink", mode=0o777, uid=0, gid=0, mtime=0, target=x.name))
     if r.random() < 0.3:
         # a name component of exactly 100 bytes below a directory: fills the ustar name field completely (no terminator), prefix non-empty
         dirs = [x.name for x in out if x.type == "dir" and x.name not in (b"./", b"/") and len(x.name) < 100]
